@@ -92,9 +92,14 @@ def run(run, replay=None):
                 h.set(b, ci, fi, k, attrs[k])
             elif r < 0.75:
                 h.mut(b, ci, fi, rng.choice(['k', 'a']), rng.choice([1, 'v', None]))
-            else:
+            elif r < 0.88:
                 sec = rng.choice(['self', 'meta'] + (['pre'] if lvl < 2 else ['diff']))
                 h.opt(b, ci, fi, sec, rng.choice(['encoding', 'custom']), rng.choice(['utf-16', 'latin-1']))
+            else:
+                # remove an option - in particular one for which the section class has a default
+                sec, key = rng.choice([('meta', 'format'), ('self', 'encoding'), ('self', 'version'), ('meta', 'encoding'),
+                                       ('pre' if lvl < 2 else 'diff', 'line_endings')])
+                h.opt(b, ci, fi, sec, key, delete=True)
             h.cmp(a, b)
             h.cmp(b, a)
         h.cmp(a, a)
